@@ -358,6 +358,9 @@ pub fn main(args: &Args) -> std::io::Result<()> {
             st.inc("variable_width_rate_ge_1");
         }
         let mut rec = StrokeRec::default();
+        if it % 16 == 0 {
+            breadcrumb(&args.out, &format!("one of the 16 inputs starting at: {}", label));
+        }
         let r = catch(AssertUnwindSafe(|| run_stroke(entry, &mut StrokeTessellator::new(), &spec, &o, &mut rec).is_ok()));
         match r {
             None => {
@@ -525,6 +528,7 @@ pub fn main(args: &Args) -> std::io::Result<()> {
             glist(got.iter().map(|t| format!("({}, {}, {})%Z", t[0], t[1], t[2])))
         ));
     }
+    clear_breadcrumb(&args.out);
     w.finish()?;
     st.write(&args.out.join("c05_stats.json"))
 }
